@@ -171,6 +171,7 @@ class Sim:
             "digest": digest([self.ops, self.log, [v["oracle"] for v in self.violations]]),
             "cfg": self.cfg,
             "states": [self.user["state"]] if "state" in self.user else [],
+            "user_regsnaps": self.user.get("regsnaps"),
         }
 
 
